@@ -321,8 +321,8 @@ impl SwiftField for Field53SenderCorrespondent {
                 let field = Field53D::parse(value)?;
                 Ok(Field53SenderCorrespondent::D(field))
             }
-            None | Some("") => {
-                // No option letter given: fall back to default parse behavior
+            None => {
+                // No tag information at all (direct API use): fall back to default parse behavior
                 Self::parse(value)
             }
             Some(other) => Err(ParseError::InvalidFormat {
